@@ -2,7 +2,7 @@ CONSTANTS Engines = {e1, e2}  Gens = {g1}  Utts <- MCUtts  NStream = 2  GvStream
   SFields = {"speed", "ht"}  TFields = {}
 SPECIFICATION Spec
 INVARIANTS Deterministic
-PROPERTIES CallsArePure SetterLocal GenFrozen
+PROPERTIES CallsArePure SetterLocal GenFrozen CloneCopies GenIndependent OutsOnlyByCalls
 CONSTRAINT Bound
 VIEW View
 CHECK_DEADLOCK FALSE
